@@ -285,6 +285,18 @@ def rule_k6(chk: Check, F, ix: Index, thorough: bool):
         raise AnalysisError(f"SearchPath escape rule: {e}")
     chk.require(w is None, "K6-continuation", "SearchPath:escaped-backtick", repo.TOKENIZE,
                 f"the search-path pattern matches {w!r}, ending at a backtick that is escaped by a backslash: `a\\`b` is cut in two")
+    # the search-path lexeme itself: optional prefix of the letters r g p f in any order and number (or @name), then a backtick
+    # body in which a backslash escapes the next character — language equality with this reference, whatever the spelling
+    chk.count("K6-continuation")
+    REF_SP = r"(?:[rgpf]+|@\w*)?`(?:[^\n`\\]|\\.)*`"
+    try:
+        an3 = rx.Analysis({"mine": sp, "ref": REF_SP}, exhaustive=thorough)
+        d3 = an3.witness_difference("mine", "ref")
+    except rx.Unsupported as e:
+        raise AnalysisError(f"SearchPath language: {e}")
+    chk.require(d3 is None, "K6-continuation", "SearchPath:language", repo.TOKENIZE,
+                f"the search-path pattern and its definition (letters r/g/p/f in any order or @name, backtick body with backslash escapes) "
+                f"differ on {d3!r} (text, matched here, matched by the definition): such a spelling falls apart into NAME + search path")
     chk.count("K6-continuation")
     chk.require(pf is None, "K6-continuation", "SearchPath:unique-end", repo.TOKENIZE,
                 f"the search-path pattern can end at two places ({pf}): an escaped backtick inside the path ends the token early")
